@@ -42,18 +42,27 @@ def build_label(rng):
     nm = lambda: rng.choice(["A", "Ab", "X_1", "LINES", "q9"])
     ident = rng.choice(["IDENT", "abc", "V_2"])
     q = rng.choice(['"', "'"])
-    qs = rng.choice(["s", "two words", "x=1", "q(1,2)"])
     nl = rng.choice(["\n", "\n", "\r\n"])
+    # delimited tokens also come in multi-line form: the error position
+    # arithmetic has to cope with a lexeme that spans lines
+    qs = rng.choice(["s", "two words", "x=1", "q(1,2)",
+                     "line one" + nl + "  line two",
+                     "a" + nl + nl + "b" + nl + "c"])
     segs = []
     if rng.random() < 0.5:
-        segs += [("comment", "/* head */"), ("between", nl)]
+        segs += [("comment", rng.choice(["/* head */", "/* two" + nl +
+                                         "   lines */"])),
+                 ("between", nl)]
     segs += [("name", nm()), ("between", " "), ("eq", "="), ("between", " "),
              ("unquoted", ident), ("between", nl)]
     segs += [("name", nm()), ("between", " = "),
              ("quoted", q + qs + q), ("between", " "),
-             ("comment", "/* c */"), ("between", nl)]
+             ("comment", rng.choice(["/* c */", "/* c" + nl + " d" + nl +
+                                     " e */"])), ("between", nl)]
     segs += [("name", nm()), ("between", "="), ("unquoted", "12"),
-             ("between", " "), ("units", "<m/s>"), ("between", nl)]
+             ("between", " "),
+             ("units", rng.choice(["<m/s>", "<m/s>", "< m" + nl + " / s >"])),
+             ("between", nl)]
     if rng.random() < 0.7:
         kw = rng.choice(["GROUP", "OBJECT"])
         segs += [("keyword", kw), ("between", " = "), ("name", "g"),
@@ -133,7 +142,8 @@ class C15(Property):
                        "probe.class:units", "probe.class:between",
                        "probe.class:quoted-in-block", "probe.class:END",
                        "probe.class:afterEND", "probe.default-transparent",
-                       "probe.table-compared"]
+                       "probe.table-compared",
+                       "probe.fault-on-later-line-of-multiline-token"]
 
     # ---- one explicit case
     def execute_case(self, case, out=None):
@@ -232,6 +242,11 @@ class C15(Property):
                 k = p - (a + 1)
                 want = (inner[:k] + ch + inner[k:]) if mode == "insert" \
                     else (inner[:k] + ch + inner[k + 1:])
+                # the default decoder folds the grammar's six white-space
+                # characters (and only those) inside strings
+                import re
+                want = re.sub("[ \t\n\r\v\f]+", " ",
+                              want.strip(" \t\n\r\v\f"))
                 found = [v for v in self.strings(o.value)]
                 if want not in found:
                     viol("default-altered", "decoded strings %r do not "
@@ -296,6 +311,14 @@ class C15(Property):
                 out.inc("probe.codepoint-enumerated")
         for sg, cls, p, c, mode in jobs:
             out.inc("probe.class:" + cls)
+            for scls, stext in sg:
+                pass
+            _t, _sp = layout([tuple(x) for x in sg])
+            for scls, a, b in _sp:
+                if a <= p < b and scls in ("quoted", "comment", "units",
+                                           "quoted-in-block") and \
+                        "\n" in _t[a:p]:
+                    out.inc("probe.fault-on-later-line-of-multiline-token")
             case = {"segs": [list(s) for s in sg], "p": p, "c": c,
                     "mode": mode,
                     "configs": ["PVL", "ODL", "PDS3", "default"]}
